@@ -170,6 +170,20 @@ LEVEL_TEXT['C05'] = LEVEL_TEXT['C05'].replace('One mechanism only.', 'Three mech
 NOTE['C05'] = NOTE['C05'].replace('Not covered: search_dir / push_component, glob() fallback and sort, literal_period, noglob, the file system.', 'Units globtop / globdir: push_component, the regex engine, the directory iterator, the sort are opaque calls. Not covered: push_component / file_exists, literal_period (inside the pattern), the file system.')
 TECH['C05'] = TECH['C05'] + ', of glob() and of SearchEnv::search_dir (opaque callees observed by ghost logs; loop invariant over the directory entries)'
 
+# ---- session of 2026-09-25 (second part): units wordpipe, lexbuf, forkstate, fgresume, tokentake, leaddot ----
+LEVEL_TEXT['C01'] += ' Added (unit wordpipe): the functions that put the stages together (expansion.rs) are proved, against a ghost log of their opaque stages, to run the initial expansion of a word once in a splitting context, to split EVERY field of its result in order with the IFS the variables hold after that expansion, to subject EVERY split field in order to pathname expansion and to deliver exactly those answers in order; the single-field functions expand once, join, remove quotes, and neither split nor glob.'
+TECH['C01'] += ' + expand_word_multiple / expand_word_attr / expand_word / expand_word_with_mode / initial Env::new (stages as opaque calls behind a ghost log)'
+LEVEL_TEXT['C08'] += ' Added (unit forkstate): ForkEnvState::{extract_from_env, restore_into_env, into_env_with_system, clone} and Env::run_in_child_process are proved to take all fourteen non-system fields of the environment out before the fork and to put them back field for field, so that the parent environment is exactly what it was, and to hand the child task an environment made of exactly the fields of the state (the fork of the system itself is an assumed contract: shared data returned intact).'
+TECH['C08'] += ' + ForkEnvState / Env::run_in_child_process (field-by-field frame contracts; the child closure as a nested function)'
+LEVEL_TEXT['C18'] = LEVEL_TEXT['C18'].replace('that the lexer requests a new line only when its buffer is exhausted is inside the opaque parse call and is not decided;', 'the line buffer of the lexer (LexerCore::peek_char, consume_char, rewind, flush, reset: unit lexbuf) is proved to ask its input for a line only when every buffered character was consumed and the input is alive, for exactly one line, which the buffer gains complete and in order, and never again after the end of input or an error; the token cache of the parser (unit tokentake) asks the lexer only when it is empty; what lies between the two (the tokenizer) is not decided;')
+TECH['C18'] += ' + LexerCore::{peek_char, consume_char, peek_char_at, rewind, pending, flush, reset} (loop invariant over a ghost log of the lines the input handed out) + Parser::{require_token, take_token_raw}'
+LEVEL_TEXT['C17'] += ' Added (unit tokentake): Parser::take_token_manual offers exactly the token it took, once, with its caller\'s command-position flag; take_token_auto never claims command position, never offers a reserved word its caller asked for, and hands back the last token it took after every earlier one was replaced (its termination is not decided).'
+TECH['C17'] += ' + Parser::{take_token_manual, take_token_auto} against a ghost log of the offers made to substitute_alias'
+LEVEL_TEXT['C13'] += ' Added (unit fgresume): fg gives a live job the terminal before SIGCONT goes to its process group only, awaits it exactly once, takes the terminal back and removes the job from the table exactly when it has finished; an already finished job is removed without signal or wait; a job that is not the shell\'s or not job-controlled is refused untouched.'
+TECH['C13'] += ' + fg::resume_job_by_index / should_interrupt (ghost log of the opaque system and job-table calls)'
+LEVEL_TEXT['C05'] += ' Added (unit leaddot): the flag that switches the leading-period rejection off (Ast::starts_with_literal_dot) is set exactly for a pattern whose first atom is the literal character `.`.'
+TECH['C05'] += ' + Ast::starts_with_literal_dot'
+
 def main():
     checks = []
     for pid in ALL:
